@@ -117,7 +117,18 @@ def type_head(t):
     return base.split('::')[-1].strip()
 
 
+_callee_cache = {}
+
+
 def parse_callee(path):
+    r = _callee_cache.get(path)
+    if r is None:
+        r = _parse_callee(path)
+        _callee_cache[path] = r
+    return dict(r)
+
+
+def _parse_callee(path):
     """-> dict(kind='trait', self=, trait=, method=, generics=) | dict(kind='path', segs=[..], raw=)"""
     p = strip_lifetimes(path).strip()
     for pre in _prefixes:
@@ -306,12 +317,126 @@ class Ctx:
         self.solver_time = 0.0
         self.log = []
         self.notes = {}
+        self.completing = False
+        self.dom = {}
+        self.fast = 0
+        self._atom_cache = {}
 
-    def add(self, c):
+    def add(self, c, dom=True):
         if c is True:
             return
         self.pc.append(c)
         self.solver.add(c)
+        if dom:
+            self.dom_assume(c)
+
+    # -------- finite-domain fast path: most symbolic leaves range over a small universe and are only ever
+    # compared with constants; such comparisons are decided on the domain without a solver call.  The domain
+    # is an over-approximation, so 'definitely true/false' answers are sound; a 'both possible' answer that the
+    # full path condition refutes is caught by the solver check at the end of the path.
+    def set_domain(self, v, values):
+        self.dom[v.get_id()] = set(values)
+
+    def _atom(self, c):
+        cid = c.get_id()
+        r = self._atom_cache.get(cid, 0)
+        if r == 0:
+            r = self._atom0(c)
+            self._atom_cache[cid] = r
+        return r
+
+    def _atom0(self, c):
+        """c is `var == const` / `const == var` / bool var -> (id, value) else None"""
+        if z3.is_eq(c):
+            a, b = c.arg(0), c.arg(1)
+            for x, y in ((a, b), (b, a)):
+                if x.get_id() in self.dom:
+                    if z3.is_string_value(y):
+                        return x.get_id(), y.as_string()
+                    if z3.is_int_value(y):
+                        return x.get_id(), y.as_long()
+                    if z3.is_true(y) or z3.is_false(y):
+                        return x.get_id(), z3.is_true(y)
+            return None
+        if z3.is_const(c) and z3.is_bool(c) and c.get_id() in self.dom:
+            return c.get_id(), True
+        return None
+
+    def dom_eval(self, c):
+        """-> 'T' | 'F' | 'U' (both possible on the domain) | None (not a domain condition)"""
+        if c is True:
+            return 'T'
+        if c is False:
+            return 'F'
+        at = self._atom(c)
+        if at is not None:
+            d = self.dom[at[0]]
+            if at[1] not in d:
+                return 'F'
+            return 'T' if len(d) == 1 else 'U'
+        if z3.is_not(c):
+            r = self.dom_eval(c.arg(0))
+            return {'T': 'F', 'F': 'T', 'U': 'U', None: None}[r]
+        if z3.is_and(c):
+            rs = [self.dom_eval(x) for x in c.children()]
+            if 'F' in rs:
+                return 'F'
+            if None in rs:
+                return None
+            if all(r == 'T' for r in rs):
+                return 'T'
+            # conjunction of disequalities on the same variable etc.: decide exactly on single-variable conjunctions
+            return self._single_var(c)
+        if z3.is_or(c):
+            rs = [self.dom_eval(x) for x in c.children()]
+            if 'T' in rs:
+                return 'T'
+            if None in rs:
+                return None
+            if all(r == 'F' for r in rs):
+                return 'F'
+            return self._single_var(c)
+        return None
+
+    def _vars_of(self, c, acc):
+        at = self._atom(c)
+        if at is not None:
+            acc.add(at[0])
+            return True
+        if z3.is_not(c) or z3.is_and(c) or z3.is_or(c):
+            return all(self._vars_of(x, acc) for x in c.children())
+        return False
+
+    def _holds(self, c, vid, val):
+        at = self._atom(c)
+        if at is not None:
+            return at[1] == val
+        if z3.is_not(c):
+            return not self._holds(c.arg(0), vid, val)
+        if z3.is_and(c):
+            return all(self._holds(x, vid, val) for x in c.children())
+        return any(self._holds(x, vid, val) for x in c.children())
+
+    def _single_var(self, c):
+        vs = set()
+        if not self._vars_of(c, vs) or len(vs) != 1:
+            return None
+        vid = next(iter(vs))
+        sat = [val for val in self.dom[vid] if self._holds(c, vid, val)]
+        if not sat:
+            return 'F'
+        return 'T' if len(sat) == len(self.dom[vid]) else 'U'
+
+    def dom_assume(self, c):
+        if c is True or c is False or not isinstance(c, z3.ExprRef):
+            return
+        vs = set()
+        if self._vars_of(c, vs) and len(vs) == 1:
+            vid = next(iter(vs))
+            self.dom[vid] = set(val for val in self.dom[vid] if self._holds(c, vid, val))
+        elif z3.is_and(c):
+            for x in c.children():
+                self.dom_assume(x)
 
     def check(self, *extra):
         t = time.time()
@@ -325,6 +450,16 @@ class Ctx:
     def choose(self, options, label=''):
         """options: list of z3 Bool (or True) conditions, one per alternative.  Returns chosen index;
         asserts its condition.  Infeasible alternatives are never chosen."""
+        if self.completing:
+            # model completion of never-inspected input nodes: first alternative, not a decision of the path
+            for i, c in enumerate(options):
+                if c is True:
+                    return i
+            for i, c in enumerate(options):
+                if c is not False and self.check(c):
+                    self.add(c)
+                    return i
+            raise Infeasible('completion')
         k = len(self.trace)
         if k < len(self.prefix):
             idx = self.prefix[k]
@@ -333,7 +468,18 @@ class Ctx:
             return idx
         feas = []
         for i, c in enumerate(options):
-            if c is True or (c is not False and self.check(c)):
+            if c is True:
+                feas.append(i)
+                continue
+            if c is False:
+                continue
+            r = self.dom_eval(c)
+            if r is not None:
+                self.fast += 1
+                if r != 'F':
+                    feas.append(i)
+                continue
+            if self.check(c):
                 feas.append(i)
         if not feas:
             raise Infeasible('no feasible option at %s' % label)
@@ -967,6 +1113,12 @@ class Interp:
             return self.run_body(body, args, None)
         if len(segs) >= 2 and (segs[-2], segs[-1]) in P.trait_defaults:
             return self.run_body(P.trait_defaults[(segs[-2], segs[-1])], args, frame.self_ty if frame else None)
+        # tuple-variant / tuple-struct constructors used as functions (e.g. `Expr::Ident` passed to map_or)
+        defs = P.defs
+        if len(segs) >= 2 and segs[-2] in defs and hasattr(defs[segs[-2]], 'variants'):
+            ed = defs[segs[-2]]
+            if any(v[0] == segs[-1] for v in ed.variants):
+                return Adt(ed.name, ed.vindex(segs[-1]), list(args))
         return self.call_model(info, args, frame)
 
     def call_model(self, info, args, frame):
